@@ -546,7 +546,8 @@ class Nodes:
             elif value_tag:
                 new_node = TaggedScalar(value=node, tag=value_tag)
                 if hasattr(node, "anchor") and node.anchor.value:
-                    new_node.yaml_set_anchor(node.anchor.value)
+                    new_node.yaml_set_anchor(
+                        node.anchor.value, always_dump=True)
         else:
             new_node.yaml_set_tag(value_tag)
 
